@@ -64,10 +64,15 @@ theorem C21_gen_literals : Gen.C21.nsites.all (fun s => s.lit) = true := by deci
 theorem C21_gen_mixed : nmixedFields Gen.C21.nsites =
     [[68, 80, 111, 83, 86, 50, 82, 101, 119, 97, 114, 100, 73, 110, 102, 111, 91, 93]] := by decide +kernel
 
-/-- T-gen: fingerprints of the printed source of the execute / rollback closures of every site, in
-    table order.  Any edit inside a closure (a changed guard, a dropped or altered restore) changes its
-    fingerprint; the lemma then stops checking and the edited site has to be reviewed again
-    (deliberately strict: rollback closures are consensus critical; a pure rename also trips it). -/
+/-- T-gen: fingerprints (FNV-1a mod 1000000007) of the printed source of the execute / rollback
+    closures of every `History.Append` site, in table order.
+    **Scope, stated plainly:** this lemma is a tripwire, not a semantic check.  It fires on ANY edit
+    inside a closure — a changed guard, a dropped or altered restore, but equally a pure rename or a
+    reformatting that changes the printed text.  When it fires and the real-state harness finds no
+    rollback≠direct history, `./check` reports `VIOLATION … no-failing-input-found`, which is the
+    documented outcome for a (possibly harmless) rewrite: the edited site has to be reviewed and the
+    expected list regenerated.  Finding a concrete failing history is the job of the harness
+    (harness/cmd/c21), which replays corpus witnesses for the known change shapes first. -/
 theorem C21_gen_closure_sigs : Gen.C21.nsites.map (·.sig) =
     [466884392, 795374539, 21859275, 50272419, 455696404, 764441253, 524937487, 619697803, 458577702, 386935145, 535813993, 885981287, 444058895, 172300378, 767631593, 782771734, 7556571, 299313599, 848691336, 545815731, 89238560, 431630024, 778016745, 514334579, 612670621, 488902839, 425252391, 513055951, 678024087, 205000059, 767430220, 36369494, 597050411, 520716555, 951884585, 188066533, 930593026, 22641283, 4494442, 4494442, 653478945, 180212798, 522739302, 198460818, 989201915, 941041163, 259687795, 887435623, 265794355, 490525033, 555195813, 639849528, 40892204, 137127415, 480743410, 973465280, 743604476, 456810378, 566789528, 959488150, 686428609, 531425231, 900874924, 692000778, 168296095, 473929906, 42004683, 398187897, 521177749, 62318329, 602812895, 776490465, 720360759, 538922687, 102607594, 769134116, 676685049, 941624431, 802556011, 463639215, 528297021, 583503412, 767509337, 636673794, 767509337, 636673794, 15493165, 15493165, 516455517, 965046069, 666280659] := by decide +kernel
 
